@@ -6,8 +6,95 @@ let funv (e : fexpr) : float list -> float = fun p -> eval_fexpr e (Array.of_lis
 let put_out (o : float nmout) =
   put_fl o.o_pmin; put_f o.o_fmin; put_fl o.o_y; put_table o.o_simplex; put_i (int_of_z o.o_nfunc); put_table o.o_tr
 
+(* the process is gone when an inner minimisation does not return *)
+exception Inner_exit of string
+let res_word = function Exit -> "EXIT" | OOB -> "OOB" | Fuel -> "FUEL" | Ok _ -> "OK"
+let obj0 () : float nmobj = { ob_nfunc = Z0; ob_mpts = O; ob_ndim = O; ob_fmin = 0.0; ob_y = []; ob_simplex = [] }
+
+(* one request to minimize without the tolerance (it belongs to the object) *)
+let read_call kind r (mk : reader -> (float list -> float)) : float nmcall =
+  match kind with
+  | "nm" -> let pp = table r in let f = mk r in CallG (f, pp)
+  | "nmd" -> let st = list r in let ds = list r in let f = mk r in CallD (f, st, ds)
+  | _ -> let st = list r in let d = num r in let f = mk r in Call1 (f, st, d)
+
+exception Seq_stop
+(* seq: calls in one process on one or several objects; `same` = the answer equals the answer of a fresh object *)
+let handle_seq r =
+  let nobj = integer r in
+  let ftols = Array.init nobj (fun _ -> num r) in
+  let objs = Array.init nobj (fun _ -> obj0 ()) in
+  let ncalls = integer r in
+  (try
+    for _ = 1 to ncalls do
+      let ob = integer r in
+      let kind = word r in
+      (match kind with
+       | "fmin" | "fmax" ->
+           let xl = num r in let xr = num r in let tol = num r in let e = parse_fexpr r in
+           (match (if kind = "fmin" then find_minimum else find_maximum) fops (fun1 e) xl xr tol with
+            | Ok (x, tr) -> put_w "C"; put_f x; put_fl tr
+            | bad -> Buffer.clear buf; first := true; put_w (res_word bad); raise Seq_stop)
+       | _ ->
+           let c = read_call kind r (fun r -> funv (parse_fexpr r)) in
+           (match obj_call fops objs.(ob) ftols.(ob) c with
+            | Ok (ob', o) ->
+                objs.(ob) <- ob';
+                put_w "C"; put_out o;
+                put_i (match fresh_call fops ftols.(ob) c with Ok o2 -> if o2 = o then 1 else (if compare o2 o = 0 then 1 else 0) | _ -> 0)
+            | bad -> Buffer.clear buf; first := true; put_w (res_word bad); raise Seq_stop))
+    done
+  with Seq_stop -> ())
+
+(* nest: F(x) = min_z g(x ++ z), the inner minimisation by the model as well *)
+let handle_nest r =
+  let outer = word r in
+  let xl = ref 0.0 and xr = ref 0.0 and tol = ref 0.0 and ftol = ref 0.0 in
+  let call = ref None in
+  if outer = "fmin" then (xl := num r; xr := num r; tol := num r)
+  else (ftol := num r;
+        call := Some (match outer with
+          | "nm" -> let pp = table r in `G pp
+          | "nmd" -> let st = list r in let ds = list r in `D (st, ds)
+          | _ -> let st = list r in let d = num r in `One (st, d)));
+  let inner = word r in
+  let ftol_in = ref 0.0 and din = ref 0.0 and zl = ref 0.0 and zr = ref 0.0 and tol_in = ref 0.0 and shared = ref 0 and z0 = ref [] in
+  if inner = "nm1" then (ftol_in := num r; z0 := list r; din := num r; shared := integer r)
+  else (zl := num r; zr := num r; tol_in := num r);
+  let e = parse_fexpr r in
+  let g = funv e in
+  let inner_obj = ref (obj0 ()) in
+  let bigf (x : float list) : float =
+    if inner = "nm1" then
+      (match profile_nm1 fops g (if !shared <> 0 then !inner_obj else obj0 ()) !ftol_in !z0 !din x with
+       | Ok (ob', v) -> if !shared <> 0 then inner_obj := ob'; v
+       | bad -> raise (Inner_exit (res_word bad)))
+    else
+      (match profile_fmin fops g !zl !zr !tol_in x with
+       | Ok v -> v
+       | bad -> raise (Inner_exit (res_word bad))) in
+  let vals = ref [] in
+  let fobj x = let v = bigf x in vals := v :: !vals; v in
+  try
+    if outer = "fmin" then
+      (match find_minimum fops (fun x -> fobj [x]) !xl !xr !tol with
+       | Ok (x, tr) -> put_f x; put_fl tr; put_fl (List.rev !vals); put_f (bigf [x])
+       | bad -> put_w (res_word bad))
+    else
+      (let res = match !call with
+         | Some (`G pp) -> minimize_general fops fobj !ftol pp
+         | Some (`D (st, ds)) -> minimize_deltas fops fobj !ftol st ds
+         | Some (`One (st, d)) -> minimize_delta fops fobj !ftol st d
+         | None -> Exit in
+       match res with
+       | Ok o -> put_out o; put_fl (List.rev !vals); put_fl (List.map bigf o.o_simplex)
+       | bad -> put_w (res_word bad))
+  with Inner_exit w -> Buffer.clear buf; first := true; put_w w
+
 let handler r =
   match word r with
+  | "seq" -> handle_seq r
+  | "nest" -> handle_nest r
   | "fmin" -> let xl = num r in let xr = num r in let tol = num r in let e = parse_fexpr r in
       put_res (fun (x, tr) -> put_f x; put_fl tr) (find_minimum fops (fun1 e) xl xr tol)
   | "fmax" -> let xl = num r in let xr = num r in let tol = num r in let e = parse_fexpr r in
